@@ -22,7 +22,7 @@ fn opcode_u8(op: OpCode) -> (r: u8) ensures r == opcode_byte(op) { op as u8 }
 pub struct Chunk { pub code: Vec<u8> }
 pub struct Local { }
 pub struct Compiler { pub chunk: Chunk, pub locals: Vec<Local>, pub ghost loop_header: int }
-pub struct Token { }
+pub struct Token { pub kind: TokenKind }
 impl Token { #[verifier::external_body] fn from_string(s: &str) -> Token { unimplemented!() } }
 impl Compiler {
     // compiler.rs push_loop records the current end of the code as the loop header (unit compiler)
@@ -38,7 +38,25 @@ impl Compiler {
     fn pop_loop(&mut self) -> (r: Result<(), CompilerError>) ensures final(self).chunk.code@.len() == old(self).chunk.code@.len(), final(self).chunk == old(self).chunk { unimplemented!() }
 }
 
-pub struct Parser { pub comp: Compiler, pub nesting: usize, pub ghost targets: Map<int, int>, pub ghost had_error: bool, pub ghost parsed_at: Seq<Precedence> }
+// the operator a compound-assignment token names
+pub open spec fn compound_op(k: TokenKind) -> Option<OpCode> {
+    match k {
+        TokenKind::MinusEqual => Some(OpCode::Subtract), TokenKind::PlusEqual => Some(OpCode::Add), TokenKind::SlashEqual => Some(OpCode::Divide),
+        TokenKind::StarEqual => Some(OpCode::Multiply), TokenKind::AmpEqual => Some(OpCode::BitwiseAnd), TokenKind::BarEqual => Some(OpCode::BitwiseOr),
+        TokenKind::CaretEqual => Some(OpCode::BitwiseXor), TokenKind::PercentEqual => Some(OpCode::Modulo), TokenKind::LessLessEqual => Some(OpCode::BitShiftLeft),
+        TokenKind::GreaterGreaterEqual => Some(OpCode::BitShiftRight), _ => None,
+    }
+}
+// chunk.rs OpCode::arg_sizes: locals and captures have a one-byte operand, globals a two-byte constant index
+pub uninterp spec fn byte_operand(op: OpCode) -> bool;
+pub open spec fn var_op_len(op: OpCode) -> int { if byte_operand(op) { 2 } else { 3 } }
+pub open spec fn access_pair(g: OpCode, s: OpCode) -> bool { (g is GetLocal && s is SetLocal) || (g is GetUpvalue && s is SetUpvalue) || (g is GetGlobal && s is SetGlobal) }
+pub open spec fn is_get(b: u8) -> bool { b == opcode_byte(OpCode::GetLocal) || b == opcode_byte(OpCode::GetUpvalue) || b == opcode_byte(OpCode::GetGlobal) }
+pub open spec fn is_set(b: u8) -> bool { b == opcode_byte(OpCode::SetLocal) || b == opcode_byte(OpCode::SetUpvalue) || b == opcode_byte(OpCode::SetGlobal) }
+#[verifier::external_body]
+fn verif_unreachable() requires false { unimplemented!() }
+
+pub struct Parser { pub comp: Compiler, pub nesting: usize, pub previous: Token, pub single_target_mode: bool, pub ghost targets: Map<int, int>, pub ghost had_error: bool, pub ghost parsed_at: Seq<Precedence> }
 
 impl Parser {
     pub open spec fn code(&self) -> Seq<u8> { self.comp.chunk.code@ }
@@ -74,7 +92,7 @@ impl Parser {
     fn error(&mut self, message: &str) ensures final(self).comp == old(self).comp, final(self).targets == old(self).targets, final(self).had_error { unimplemented!() }
     #[verifier::external_body]
     fn emit_constant_op(&mut self, opcode: OpCode, constant: u16)
-        ensures final(self).parsed_at == old(self).parsed_at, final(self).code().len() == old(self).code().len() + 3, old(self).extends(final(self)), final(self).targets == old(self).targets, final(self).had_error == old(self).had_error, final(self).comp.loop_header == old(self).comp.loop_header, final(self).comp.locals == old(self).comp.locals
+        ensures final(self).parsed_at == old(self).parsed_at, final(self).code().len() == old(self).code().len() + 3, final(self).code()[old(self).code().len() as int] == opcode_byte(opcode), old(self).extends(final(self)), final(self).targets == old(self).targets, final(self).had_error == old(self).had_error, final(self).comp.loop_header == old(self).comp.loop_header, final(self).comp.locals == old(self).comp.locals
     { unimplemented!() }
     #[verifier::external_body]
     fn emit_bytes(&mut self, bytes: [u8; 2])
@@ -109,7 +127,14 @@ impl Parser {
     { unimplemented!() }
     // ---- nested constructs and the token stream
     #[verifier::external_body]
-    fn expression(&mut self) ensures old(self).extends(final(self)) { unimplemented!() }
+    fn expression(&mut self) ensures old(self).extends(final(self)), final(self).parsed_at.len() == old(self).parsed_at.len() + 1, final(self).parsed_at.subrange(0, old(self).parsed_at.len() as int) == old(self).parsed_at { unimplemented!() }
+    // compiler.rs Parser::expression with single_target_mode set (its own contract: unit pratt — the level it asks
+    // parse_precedence for is BitwiseOr in that mode); whatever it parses, the flag is what nested parsing leaves
+    #[verifier::external_body]
+    fn expression_in_target_mode(&mut self)
+        requires old(self).single_target_mode
+        ensures old(self).extends(final(self)), final(self).parsed_at == old(self).parsed_at.push(Precedence::BitwiseOr), final(self).code().len() >= old(self).code().len() + 1
+    { unimplemented!() }
     #[verifier::external_body]
     fn parse_precedence(&mut self, precedence: Precedence) ensures old(self).extends(final(self)), final(self).parsed_at == old(self).parsed_at.push(precedence) { unimplemented!() }
     #[verifier::external_body]
@@ -123,13 +148,55 @@ impl Parser {
     #[verifier::external_body]
     fn consume(&mut self, kind: TokenKind, message: &str) ensures old(self).quiet(final(self)) { unimplemented!() }
     #[verifier::external_body]
-    fn match_token(&mut self, kind: TokenKind) -> bool ensures old(self).quiet(final(self)) { unimplemented!() }
+    fn match_token(&mut self, kind: TokenKind) -> (r: bool) ensures old(self).quiet(final(self)), final(self).parsed_at == old(self).parsed_at, final(self).single_target_mode == old(self).single_target_mode, final(self).nesting == old(self).nesting, r ==> final(self).previous.kind == kind, !r ==> final(self).previous == old(self).previous { unimplemented!() }
     #[verifier::external_body]
     fn check_any(&self, kinds: &[TokenKind]) -> bool { unimplemented!() }
     #[verifier::external_body]
     fn error_at_current(&mut self, message: &str) ensures final(self).comp == old(self).comp, final(self).targets == old(self).targets, final(self).had_error { unimplemented!() }
     #[verifier::external_body]
     fn compiler_error(&mut self, error: CompilerError) ensures final(self).comp == old(self).comp, final(self).targets == old(self).targets, final(self).had_error { unimplemented!() }
+
+    // ---- assignment and compound assignment to a named variable
+    // what resolution found for a name (unit compiler: Parser::resolve_variable): a matching get / set pair and the operand
+    #[verifier::external_body]
+    fn resolve_variable(&mut self, name: &Token) -> (r: (OpCode, OpCode, u16))
+        ensures old(self).quiet(final(self)), final(self).parsed_at == old(self).parsed_at, final(self).single_target_mode == old(self).single_target_mode, final(self).previous == old(self).previous, final(self).nesting == old(self).nesting, access_pair(r.0, r.1)
+    { unimplemented!() }
+    // byte-level contract: unit compiler (Parser::emit_variable_op): the opcode, then a one- or two-byte operand
+    #[verifier::external_body]
+    fn emit_variable_op(&mut self, opcode: OpCode, variable: u16)
+        ensures final(self).code().len() == old(self).code().len() + var_op_len(opcode), final(self).code()[old(self).code().len() as int] == opcode_byte(opcode), old(self).extends(final(self)),
+            final(self).targets == old(self).targets, final(self).had_error == old(self).had_error, final(self).parsed_at == old(self).parsed_at, final(self).single_target_mode == old(self).single_target_mode, final(self).previous == old(self).previous, final(self).nesting == old(self).nesting
+    { unimplemented!() }
+    #[verifier::external_body]
+    fn verif_has_byte_operand(opcode: &OpCode) -> (r: bool) ensures r == byte_operand(*opcode) { unimplemented!() }
+
+    //@fn file=yarel/src/compiler.rs path=Parser::match_binary_assignment ret=r
+    //@  ensures r ==> compound_op(final(self).previous.kind) is Some
+    //@  ensures old(self).quiet(final(self)), final(self).parsed_at == old(self).parsed_at, final(self).single_target_mode == old(self).single_target_mode, final(self).nesting == old(self).nesting
+    //@end
+
+    // `x OP= E`:   Get x   E   OP   (then Set x, emitted by named_variable): the variable is read BEFORE the right operand
+    // is evaluated, the operator is the one the token names, the right operand binds tighter than comparison / logic
+    //@fn file=yarel/src/compiler.rs path=Parser::binary_assign
+    //@  rewrite R21
+    //@  subst "_ => unreachable!()," => "_ => verif_unreachable(),"
+    //@  subst "self.expression();" => "self.expression_in_target_mode();"
+    //@  requires compound_op(old(self).previous.kind) is Some
+    //@  ensures @a_compound_assignment_reads_the_variable_first final(self).code()[old(self).code().len() as int] == opcode_byte(get_op) && final(self).code().len() >= old(self).code().len() + var_op_len(get_op) + 1
+    //@  ensures @a_compound_assignment_applies_the_operator_its_token_names final(self).code().last() == opcode_byte(compound_op(old(self).previous.kind)->0)
+    //@  ensures @the_right_operand_of_a_compound_assignment_binds_above_comparison final(self).parsed_at == old(self).parsed_at.push(Precedence::BitwiseOr)
+    //@  ensures old(self).extends(final(self)), !final(self).single_target_mode
+    //@end
+
+    // a name in an expression: plain read, `name = E` (value, then Set), or `name OP= E` (Get, E, OP, then Set)
+    //@fn file=yarel/src/compiler.rs path=Parser::named_variable
+    //@  rewrite R21
+    //@  subst "get_op.arg_sizes() == &[1]" => "Parser::verif_has_byte_operand(&get_op)"
+    //@  ensures old(self).extends(final(self)), final(self).code().len() >= old(self).code().len() + 2
+    //@  ensures @a_name_that_cannot_be_assigned_is_only_read !can_assign ==> final(self).code().len() <= old(self).code().len() + 3 && is_get(final(self).code()[old(self).code().len() as int]) && final(self).parsed_at == old(self).parsed_at
+    //@  ensures @every_use_of_a_name_is_a_read_or_ends_in_a_store_to_it (is_get(final(self).code()[old(self).code().len() as int]) && final(self).code().len() <= old(self).code().len() + 3 && final(self).parsed_at == old(self).parsed_at) || is_set(final(self).code()[final(self).code().len() - 2]) || is_set(final(self).code()[final(self).code().len() - 3])
+    //@end
 
     // if C { T } [else E]:   C  JumpIfFalse→X  Pop  T  Jump→END  X: Pop  E  END:
     // a false condition continues right behind the jump that ends the then-part, at a Pop (the condition is popped on
